@@ -275,20 +275,34 @@ func c11Siblings(c *Ctx) {
 			}
 		}
 		if prevm != nil {
-			cs := callsTo(prevm, shared)
+			// (the derivation may sit in a helper shared by the two record types: read in its frame)
+			var cs []*ssa.Call
+			var csSites []core.DeepSite
+			for _, site := range core.SplitFind(prevm, nil, func(in ssa.Instruction) bool {
+				ci, ok := in.(*ssa.Call)
+				return ok && ci.Common().StaticCallee() == shared
+			}) {
+				cs = append(cs, site.Instr.(*ssa.Call))
+				csSites = append(csSites, site)
+			}
 			okP := len(cs) == 1
 			if okP {
-				for i, w := range []string{"PrivateKeyPkcs8", "PrivateKeyType", "PublicKeyPkix", "PublicKeyType"} {
-					ap := core.PathOf(cs[0].Call.Args[i])
-					if ap.Last() != w || len(ap.Fields) != 2 || ap.Fields[0] != "PreviousEncryptionKey" {
-						okP = false
+				csSites[0].In(func() {
+					for i, w := range []string{"PrivateKeyPkcs8", "PrivateKeyType", "PublicKeyPkix", "PublicKeyType"} {
+						ap := core.PathOf(cs[0].Call.Args[i])
+						if ap.Last() != w || len(ap.Fields) != 2 || ap.Fields[0] != "PreviousEncryptionKey" {
+							okP = false
+						}
 					}
-				}
+				})
 			}
 			okKid := false
-			for _, ret := range core.SuccessReturns(prevm) {
-				ap := core.PathOf(ret.Results[0])
-				okKid = ap.HasFields("PreviousEncryptionKey", "KeyId")
+			for _, rsite := range tailReturnSites(prevm) {
+				ret := rsite.Instr.(*ssa.Return)
+				rsite.In(func() {
+					ap := core.PathOf(ret.Results[0])
+					okKid = ap.HasFields("PreviousEncryptionKey", "KeyId")
+				})
 			}
 			r.Check(okP && okKid, "R-C11.3", "types.(*"+tname+").PreviousX25519EncryptionKey roles", p.Pos(prevm.Pos()), "reads back (private, type, public, type) and the recorded key ID", "the previous key is not read back in the roles it was recorded in")
 			// a recorded previous key is always offered: a return that does not carry
@@ -307,7 +321,8 @@ func c11Siblings(c *Ctx) {
 					}, true),
 					flipGuard(core.ErrNil("derive previous key", func(x *ssa.Call) bool { return x == derive })))
 				nNoKey := 0
-				for i, ret := range core.Returns(prevm) {
+				for i, rsite := range returnSites(prevm) {
+					ret := rsite.Instr.(*ssa.Return)
 					if kc, ki := core.CallResult(core.Strip(ret.Results[1])); kc == derive && ki == 0 {
 						continue
 					}
